@@ -1322,6 +1322,9 @@ def shrink(case, sig, fails):
                 hi = mid
             else:
                 lo = mid
+        # the exact threshold depends on how deep the caller's own stack is: keep a margin so that the replay fails
+        # from any entry point (RecursionError is about n + frames-in-use > sys.getrecursionlimit())
+        hi = min(hi + 100, case['n'])
         return dict(case, body=bytes(update([B().add(bytes([0x80, case['code'], 0]) * hi)]).b), n=hi)
     if case['ty'] != 2 or len(case['body']) < 4:
         return cur
